@@ -323,6 +323,17 @@ class Interp:
         self.funcs_seen = set()
         self.max_steps = None
 
+    def clear_caches(self):
+        """forget every modelled functools cache (a cold library; used to isolate obligations from each other)"""
+        for m in self.modules.values():
+            for v in list(m.ns.values()):
+                if isinstance(v, Func) and getattr(v, "memo", None) is not None:
+                    v.memo.clear()
+                elif isinstance(v, ClassInfo):
+                    for w in v.ns.values():
+                        if isinstance(w, Func) and getattr(w, "memo", None) is not None:
+                            w.memo.clear()
+
     def run_forks(self, thunk):
         """Enumerate all outcomes of `thunk` over symbolic-boolean decisions (DFS over schedules)."""
         results = []
